@@ -257,6 +257,8 @@ PROPS['C12'] = dict(
              'of lengths around the RFC offset, IPv6 payload-length / extension-object length fields that cover, cut and miss the payload, x payload lengths around the fitting boundary; '
              'for set_payload the oracle computes the RFC payload offset independently, requires the octets before it and behind the payload unchanged, the payload there, the read side '
              '(payload() / payload_raw()) returning it, and a panic iff the payload does not fit. '
+             'Ipv4Packet::get_options_raw_mut (c12optmut lines): every IHL 0..15 x buffers that end before, inside, at and behind the options field; every octet of the '
+             'window is complemented and the oracle requires exactly the octets 20 .. min(4*IHL, len) changed and the window as long as the read-only one. '
              'oracle: independent RFC (bit offset, width) table + bit-slice reader in the harness. '
              'non-trivial = accessor case on a buffer that is not all zeros, or a construction case; distinct = distinct input line',
         exhaustive={'quick': False, 'thorough': False},
@@ -691,3 +693,16 @@ PROPS['C09'] = dict(
     nontrivial=lambda inp, o: True if inp.startswith('platform ') else _c09p['nontrivial'](inp, o),
     rule=_c09p['rule'] + ' || the real SocketImpl::is_readable on loopback sockets (mode platform): idle waits, waits interrupted by a stream of signals (handler without SA_RESTART: select returns EINTR), a datagram arriving; an interrupted wait must read "nothing", never an error',
 )
+
+
+# ---- the probe as the strategy hands it to the network (ports, sequence, identifier, ttl of first attempts AND re-issued probes) and the
+# acceptance of its answer are part of "as the strategy prescribes" (C11) and of "recognised as the response to exactly that probe" (C02):
+# the strategy-level runs of mode run (recorded trace replayed through the model) join both
+for _p in ('C11', 'C02'):
+    _old = PROPS[_p]
+    PROPS[_p] = dict(
+        _old, modes=_old['modes'] + [('hcore', 'run')],
+        compare=(lambda o: lambda inp, a, b: compare_run(inp, a, b) if inp.startswith('run ') else o['compare'](inp, a, b))(_old),
+        nontrivial=(lambda o: lambda inp, out: run_nontrivial(inp, out) if inp.startswith('run ') else o['nontrivial'](inp, out))(_old),
+        rule=_old['rule'] + ' || ' + RUN_RULE,
+    )
